@@ -20,7 +20,29 @@ C13_MODULES = ["contracts.core_models", "contracts.c09_bounded", "contracts.c13_
 
 C06_MODULES = C05_MODULES + ["contracts.c13_types", "contracts.c06_names", "contracts.c06_ports", "contracts.c06_stmts"]
 
+C02_MODULES = C05_MODULES + ["contracts.c13_types", "contracts.c13_views", "contracts.c02_ops", "contracts.c02_frontend", "contracts.c02_replace"]
+
 PROPERTIES = {
+    "C02": {
+        "modules": C02_MODULES,
+        "level": "proof",
+        "explanation": "the chain from a Python operator to emitted logic is decided link by link, each from the real source for symbolic widths and values: (1) every operator replacement of TypeQualifier yields the IR operator the statement assigns to that Python operator, over the operands in source order, with the Python-side result (68 obligations); (2) the comparison dispatch of PrepareAst (nested single_compare) falls back to the REFLECTED method with swapped operands, value = lhs OP rhs; all()/any() fold constants exactly when run-time elements cannot change the outcome (arrangements up to 3 elements); (3) the Python-side result of every arithmetic operator equals the documented semantics (C09 contracts: kind, width, wrapped value; bit-level BitVector operators bounded); (4) the backend writers BinOp/Compare/UnaryOp.write emit text that, read with numeric_std / std_logic_1164 semantics (specs/vhdl_ops.py), is well typed and has the documented type, width and value for every operator and operand-type combination the front end accepts (arithmetic, element-wise, concatenation with the left operand as most significant bits, shifts logical/arithmetic, comparisons, invert/negate/abs); (5) casts around operands and results (format_cast) carry the bits of the conversion matrix; nested slices and typed views keep their offsets (C13 contracts).",
+        "assumptions": COMMON_ASSUME + BITLEVEL_ASSUME + VHDL_ASSUME + [
+            "the numeric_std / std_logic_1164 meaning of the emitted operators is the trusted transcription specs/vhdl_ops.py + specs/vhdl_expr.py (no VHDL simulator is available to cross-check it)",
+            "operand lemma: an operand expression writes text whose VHDL type and value are those of the CoHDL type and value of its .result (established by format_cast / format_vhdl_cast; format_value's reference chain _format_ref is covered for typed views and slices by the C13 contracts, not re-proved here)",
+            "NOT decided here: if-expression / select_with merging through value branches (_value_branch.py, _generate_ir.py l.605-671), enum and array operands, run-time indexed element access; whole expression TREES are covered compositionally (each node under the operand lemma), not by an end-to-end evaluation of emitted designs",
+        ],
+        "canaries": [
+            {"name": "binop-operand-order", "contract": "cohdl._compiler.backend.vhdl._vhdl_repr:BinOp.write", "case": "SUB:Unsigned,Unsigned", "file": "cohdl/_compiler/backend/vhdl/_vhdl_repr.py",
+             "old": "        return f\"({self._lhs.write(scope)}) {op} ({self._rhs.write(scope)})\"", "new": "        return f\"({self._rhs.write(scope)}) {op} ({self._lhs.write(scope)})\""},
+            {"name": "reflected-compare", "contract": "cohdl._compiler.frontend._prepare_ast:PrepareAst.apply_impl.<single_compare>", "case": "GtE:A,B", "file": "cohdl/_compiler/frontend/_prepare_ast.py",
+             "old": "                    return evaluate(\"__ge__\", \"__le__\")", "new": "                    return evaluate(\"__ge__\", \"__lt__\")"},
+            {"name": "all-folding", "contract": "cohdl._compiler.frontend._prepare_ast:PrepareAst.convert_intrinsic", "case": "all:[FT]", "file": "cohdl/_compiler/frontend/_prepare_ast.py",
+             "old": "                        always_false = always_false or not expr_result", "new": "                        always_false = not expr_result"},
+            {"name": "reflected-operand-order", "contract": "cohdl._core._type_qualifier:TypeQualifier.<replacement of __rsub__>", "case": "value", "file": "cohdl/_core/_type_qualifier.py",
+             "old": "            intr_op.BinaryOperator.SUB, self.__rsub__(other), other, self", "new": "            intr_op.BinaryOperator.SUB, self.__rsub__(other), self, other"},
+        ],
+    },
     "C17": {
         "modules": ["contracts.core_models", "contracts.c17_proofs"],
         "level": "other",
